@@ -128,7 +128,8 @@ func docNodeAt(root *DocNode, path []int) (*DocNode, error) {
 
 // ---------------------------------------------------------------------------------- edit scripts
 
-// DocOp is one edit.  All paths refer to the ORIGINAL (unedited) document.
+// DocOp is one edit.  All paths refer to the ORIGINAL (unedited) document.  Keys given by an edit may
+// spell non-ASCII characters as "{U+XXXX}" (docKeyText).
 //
 //	set   : the node at Path becomes the scalar (V, St); it keeps its identity
 //	del   : the mapping entry / sequence element at Path is removed
@@ -151,6 +152,26 @@ type DocOp struct {
 	Val  *DocNode `json:"val,omitempty"`
 	Copy []int    `json:"copy,omitempty"`
 	New  string   `json:"new,omitempty"`
+}
+
+// docKeyText decodes "{U+XXXX}" sequences in a key given by an edit: TLA+ strings are ASCII, so
+// specifications spell non-ASCII key names this way ("{U+00E4}rger" is "ärger").
+func docKeyText(key string) string {
+	for {
+		i := strings.Index(key, "{U+")
+		if i < 0 {
+			return key
+		}
+		j := strings.Index(key[i:], "}")
+		if j < 0 {
+			return key
+		}
+		n, err := strconv.ParseInt(key[i+3:i+j], 16, 32)
+		if err != nil {
+			return key
+		}
+		key = key[:i] + string(rune(n)) + key[i+j+1:]
+	}
 }
 
 func docCase(key, mode string) string {
@@ -248,7 +269,7 @@ func docApply(base *DocNode, ops []DocOp) (*DocNode, error) {
 			for j := range p.P {
 				if p.P[j].Val == n {
 					if op.Key != "" {
-						p.P[j].Key = op.Key
+						p.P[j].Key = docKeyText(op.Key)
 					}
 					p.P[j].Key = docCase(p.P[j].Key, op.Case)
 				}
@@ -268,7 +289,7 @@ func docApply(base *DocNode, ops []DocOp) (*DocNode, error) {
 					id = "new" + strconv.Itoa(newCount)
 				}
 			}
-			x := &ins{at: op.At, pair: DocPair{Key: docCase(op.Key, op.Case)}}
+			x := &ins{at: op.At, pair: DocPair{Key: docCase(docKeyText(op.Key), op.Case)}}
 			if copies[i] != nil {
 				x.copy = copies[i]
 			} else if op.Val != nil {
